@@ -7,6 +7,7 @@ script actions performed by a system when it runs: ('complete'[, t]) ('remove', 
 The oracle keeps its own registry (parameters as given in the ops - never read back from the objects).
 """
 import itertools
+import os
 import random
 import sys
 
@@ -15,6 +16,9 @@ from pyvc import specs as S      # noqa: E402
 from replayers import monitor    # noqa: E402
 
 BIG = sys.maxsize
+
+
+LAST_DYNAMIC = False      # the last history edited the system set from inside execute(): static-view contracts say nothing
 
 
 class Rec:
@@ -115,6 +119,8 @@ def run_history(ops, props=('C01', 'C02', 'C05', 'C06')):
     sm = m.systems
     out = []
     w.dynamic = any(op[0] == 'add' and any(a[0] in ('add', 'remove', 'replace') for a in op[6]) for op in ops)
+    global LAST_DYNAMIC
+    LAST_DYNAMIC = w.dynamic
     dyn = 'C05' if w.dynamic else None
     for op in ops:
         kind = op[0]
@@ -135,6 +141,36 @@ def run_history(ops, props=('C01', 'C02', 'C05', 'C06')):
                     out.append(('C01', f'fresh registration of {sid} rejected'))
                 if monitor.fingerprint((sm.systems, sm.execution_queue)) != before:
                     out.append(('C01', f'rejected registration of {sid} changed the scheduler'))
+        elif kind == 'addcoll':
+            # collectors are systems too: the package's own System subclasses must honour the declared window and the
+            # documented default priority -1 (they run after the default-priority systems of the timestep)
+            _, ckind, sid, prio, freq, start, end = op
+            from ECAgent.Collectors import AgentCollector, FileCollector, Collector
+            world = w
+            kw = dict(frequency=freq, start=start, end=BIG if end is None else end)
+            if prio is not None:
+                kw['priority'] = prio
+
+            def _mk(base, *a, **k):
+                class Logged(base):
+                    _verif_user = True
+
+                    def collect(self):
+                        S.GHOST.runs[self] += 1
+                        S.GHOST.last = self
+                        world.log.append((self.model.systems.timestep, self.id, id(self)))
+                return Logged(*a, **k)
+            if any(r.id == sid for r in w.reg):
+                continue
+            if ckind == 'agent':
+                obj = _mk(AgentCollector, m, lambda a: 1, None, True, id=sid, **kw)
+            elif ckind == 'file':
+                obj = _mk(FileCollector, sid, m, os.devnull, **kw)
+            else:
+                obj = _mk(Collector, sid, m, **kw)
+            sm.add_system(obj)
+            w.reg.append(Rec(obj, sid, -1 if prio is None else prio, freq, start, BIG if end is None else end, w.stamp, []))
+            w.stamp += 1
         elif kind == 'remove':
             sid = op[1]
             present = any(r.id == sid for r in w.reg)
@@ -218,7 +254,15 @@ def run_history(ops, props=('C01', 'C02', 'C05', 'C06')):
                     if kind == 'step':
                         m.execute()
                     else:
-                        sm.execute_systems(True)
+                        import logging as _lg
+                        quiet = len(op) > 1 and op[1] == 'quiet'
+                        if quiet:       # a legal logging setup: nobody listens at INFO level
+                            _lg.disable(_lg.INFO)
+                        try:
+                            sm.execute_systems(True)
+                        finally:
+                            if quiet:
+                                _lg.disable(_lg.NOTSET)
                         if not was_running:
                             out.append(('C06', 'execute_systems(True) on a complete model did not raise'))
                 except ModelCompleteError:
@@ -242,6 +286,8 @@ def run_history(ops, props=('C01', 'C02', 'C05', 'C06')):
                     out.append(('C02', 'model.timestep != scheduler timestep'))
                 if len(set(ran)) != len(ran):
                     out.append((dyn or 'C02', f'a system ran twice in one step: {ran_ids}'))
+                    if dyn:     # "exactly once" is C02's clause as well, whoever edits the system set
+                        out.append(('C02', f'a system ran twice in one step: {ran_ids}'))
                 pos = {id(r.obj): k for k, r in enumerate(start_reg)}
                 seq = [pos[r] for r in ran if r in pos]
                 if seq != sorted(seq):
@@ -258,6 +304,8 @@ def run_history(ops, props=('C01', 'C02', 'C05', 'C06')):
                     stayed = ident not in w.removed
                     if r.due(t0) and stayed and not did and m.is_running():
                         out.append((dyn or 'C02', f'{r.id} due at t={t0} did not run'))
+                        if dyn:
+                            out.append(('C02', f'{r.id} due at t={t0} and registered throughout did not run'))
                 if not m.is_running() and (m.is_running() or bool(m)):
                     out.append(('C06', 'completed model reports running'))
     return out
@@ -284,6 +332,11 @@ def small_histories():
         yield base + [('step', 1), ('readd', 's0'), ('step', 2), ('readd', 's1'), ('step', 1)]
         yield base + [('cleanup', 's1'), ('step', 1), ('add', 's1', ps[1], 1, 0, None, []), ('add', 'lo', -1, 1, 0, None, []),
                       ('step', 2)]
+    for ck in ('agent', 'file', 'plain'):
+        for (f, st, en) in ((1, 0, 2), (2, 1, 5), (1, 3, 2), (3, 0, None), (1, 2, 2)):
+            yield [('add', 'x', 0, 1, 0, None, []), ('addcoll', ck, 'col', None, f, st, en), ('add', 'y', -1, 1, 0, None, []),
+                   ('add', 'z', -2, 1, 0, None, []), ('step', 7)]
+        yield [('addcoll', ck, 'col', 3, 1, 0, 1), ('add', 'x', 3, 1, 0, None, []), ('exec', 4)]
     for f, st, en in itertools.product([1, 2, 3], [-2, 0, 1, 3], [None, 0, 2, 4]):
         yield [('add', 'a', 0, f, st, en, []), ('add', 'b', 0, 1, 0, None, []), ('step', 6)]
         yield [('add', 'b', 0, 1, 0, None, []), ('step', 4), ('add', 'a', 0, f, st, en, []), ('step', 7)]
@@ -295,6 +348,8 @@ def small_histories():
                          ('remove', 's0'), ('remove', 's1'), ('remove', 's2'), ('remove', 'late'), ('exec', 2), ('step', 1)]
     yield [('add', 'a', 0, 1, 0, None, []), ('complete',), ('step', 1), ('step_err',), ('exec', 3)]
     yield [('complete',), ('exec', 3), ('step', 1), ('step_err',)]
+    yield [('add', 'a', 0, 1, 0, None, []), ('step_err', 'quiet'), ('complete',), ('step_err', 'quiet'), ('step', 1),
+           ('step_err',)]
     yield [('exec', 2), ('complete',), ('exec', 1), ('step', 2)]
     yield [('add', 'a', 0, 1, 0, None, []), ('bad_exec', 0), ('bad_exec', -1), ('bad_exec', 2.0), ('bad_exec', '3'),
            ('bad_exec', None), ('exec', 3), ('step', 1)]
@@ -348,15 +403,18 @@ def random_history(rng, dynamic=False):
         elif r < 0.97:
             ops.append(('complete',))
         else:
-            ops.append(('step_err',))
+            ops.append(rng.choice([('step_err',), ('step_err', 'quiet')]))
     return ops
 
 
 def histories(seed, budget, dynamic=False):
-    if dynamic:
+    if dynamic == 'both':
+        yield from small_histories()
+        yield from dynamic_histories()
+    elif dynamic:
         yield from dynamic_histories()
     else:
         yield from small_histories()
     rng = random.Random(seed)
-    for _ in range(budget):
-        yield random_history(rng, dynamic)
+    for k in range(budget):
+        yield random_history(rng, (k % 3 == 0) if dynamic == 'both' else dynamic)
